@@ -4,14 +4,17 @@
 //
 // One source, several translation units: props/registry.d/C04.json builds this file several times with -DC04_PART=<n>
 // (a TU with all 40 configurations would take minutes to compile); every part instantiates a slice of the table below.
-//   part 0: char    x {0,1,7,15}          part 1: char    x {16,31,255,256}
-//   part 2: wchar_t, char8_t  x {7,15,16}  part 3: char16_t, char32_t x {7,15,16}
-//   parts 4..7 (thorough only): the remaining capacities {0,1,31,255,256} of wchar_t / char8_t / char16_t / char32_t
+//   part 0: char x {0,1,7,15}       part 1: char x {16,31,255,256}
+//   parts 2..5: wchar_t / char8_t / char16_t / char32_t x {7,15,16}
+//   parts 6..9 (thorough only): the remaining capacities {0,1,31,255,256} of wchar_t / char8_t / char16_t / char32_t
+// The registry also passes -O0: 87 % of the compile time of this file is optimisation + code generation of the
+// sanitizer-instrumented instantiations, and -O0 halves it (the run time of the harness is small either way).
 // The configuration id inside a case (OpsCase::cfg) is global: cfg = 8*char_index + capacity_index.
 #include <etl/cstring.hpp> // before string.hpp: replace(pos,n,cstr) calls an unqualified strlen that is only visible this way
 #include <etl/string.hpp>
 #include <etl/string_view.hpp>
 
+#include "iterators.hpp"
 #include "rc.hpp"
 
 #include "C04_common.inc.cpp"
@@ -49,20 +52,19 @@ auto run_cfg(OpsCase const& k, int stats) -> Result
 constexpr std::size_t caps[8]            = {0, 1, 7, 15, 16, 31, 255, 256};
 constexpr char const* const char_names[5] = {"char", "wchar_t", "char8_t", "char16_t", "char32_t"};
 
+// capacities {7,15,16} of one character type (quick + thorough) / the remaining five capacities (thorough only)
 template <typename Char>
-auto pick_cap(std::uint32_t ci, bool small_set, bool mid_set, bool rest_set) -> RunFn
+auto pick_cap(std::uint32_t ci, bool mid_set) -> RunFn
 {
-    // small_set {0,1,7,15}, mid_set {7,15,16}, rest_set: everything of the 8 capacities that mid_set does not cover
-    (void)small_set;
     switch (ci) {
-    case 0: return rest_set ? &run_cfg<Char, 0> : nullptr;
-    case 1: return rest_set ? &run_cfg<Char, 1> : nullptr;
+    case 0: return mid_set ? nullptr : &run_cfg<Char, 0>;
+    case 1: return mid_set ? nullptr : &run_cfg<Char, 1>;
     case 2: return mid_set ? &run_cfg<Char, 7> : nullptr;
     case 3: return mid_set ? &run_cfg<Char, 15> : nullptr;
     case 4: return mid_set ? &run_cfg<Char, 16> : nullptr;
-    case 5: return rest_set ? &run_cfg<Char, 31> : nullptr;
-    case 6: return rest_set ? &run_cfg<Char, 255> : nullptr;
-    default: return rest_set ? &run_cfg<Char, 256> : nullptr;
+    case 5: return mid_set ? nullptr : &run_cfg<Char, 31>;
+    case 6: return mid_set ? nullptr : &run_cfg<Char, 255>;
+    default: return mid_set ? nullptr : &run_cfg<Char, 256>;
     }
 }
 
@@ -94,24 +96,24 @@ auto runner(std::uint32_t cfg) -> RunFn
         }
     }
 #elif C04_PART == 2
-    if (chi == 1) { return pick_cap<wchar_t>(ci, false, true, false); }
-    if (chi == 2) { return pick_cap<char8_t>(ci, false, true, false); }
+    if (chi == 1) { return pick_cap<wchar_t>(ci, true); }
 #elif C04_PART == 3
-    if (chi == 3) { return pick_cap<char16_t>(ci, false, true, false); }
-    if (chi == 4) { return pick_cap<char32_t>(ci, false, true, false); }
+    if (chi == 2) { return pick_cap<char8_t>(ci, true); }
 #elif C04_PART == 4
-    if (chi == 1) { return pick_cap<wchar_t>(ci, false, false, true); }
+    if (chi == 3) { return pick_cap<char16_t>(ci, true); }
 #elif C04_PART == 5
-    if (chi == 2) { return pick_cap<char8_t>(ci, false, false, true); }
+    if (chi == 4) { return pick_cap<char32_t>(ci, true); }
 #elif C04_PART == 6
-    if (chi == 3) { return pick_cap<char16_t>(ci, false, false, true); }
-#elif C04_PART == 100 // compile-time measurement only
+    if (chi == 1) { return pick_cap<wchar_t>(ci, false); }
+#elif C04_PART == 7
+    if (chi == 2) { return pick_cap<char8_t>(ci, false); }
+#elif C04_PART == 8
+    if (chi == 3) { return pick_cap<char16_t>(ci, false); }
+#elif C04_PART == 9
+    if (chi == 4) { return pick_cap<char32_t>(ci, false); }
+#elif C04_PART == 100 // development build only: two configurations
     if (chi == 0 && ci == 2) { return &run_cfg<char, 7>; }
     if (chi == 0 && ci == 4) { return &run_cfg<char, 16>; }
-#elif C04_PART == 101
-    (void)0;
-#elif C04_PART == 7
-    if (chi == 4) { return pick_cap<char32_t>(ci, false, false, true); }
 #endif
     return nullptr;
 }
@@ -147,10 +149,11 @@ void vf_run(vf::Ctx& c)
     }
 
     // E2: every history of depth 2 (thorough: depth 3 for capacities 0 and 1) over a concrete alphabet of two argument
-    // shapes per op code, for the capacities <= 16 of this part
+    // shapes per op code, for the capacities <= 16 of this part (quick: char 0,1,7,15,16; the other types 15)
     for (auto cfg : cfgs) {
         auto cap = caps[cfg % 8];
         if (cap > 16) { continue; }
+        if (!c.thorough() && cfg >= 8 && cap != 15) { continue; } // quick: the non-char types enumerate the full-tiny-layout capacity only
         int depth = (c.thorough() && cap <= 1) ? 3 : 2;
         std::vector<RawOp> alpha;
         for (std::uint32_t code = 0; code < NCODES; ++code) {
@@ -175,7 +178,8 @@ void vf_run(vf::Ctx& c)
     }
 
     // E1: random histories of up to 40 ops, every configuration of this part
-    int per_cfg = c.thorough() ? 2000 : 500; // per shard; the registry launches 4 (quick) / 16 (thorough) shards per part
+    // 2 000 (quick) / 24 000 (thorough) histories per configuration in total, divided over the shards of this part
+    int per_cfg = (c.thorough() ? 24000 : 2000) / (c.nshards > 0 ? c.nshards : 1) + 1;
     for (auto cfg : cfgs) {
         auto gen = rc::gen::map(vf::gen_history(1, NCODES, 40), [cfg](OpsCase k) {
             k.cfg = cfg;
